@@ -47,5 +47,9 @@ econf_getValueDef(UInt, uint32_t, )
 econf_getValueDef(UInt64, uint64_t, )
 econf_getValueDef(Float, float, )
 econf_getValueDef(Double, double, )
-econf_getValueDef(String, char *, strdup)
+/* a NULL default stays NULL */
+static char *strdup_def(const char *def) {
+  return def ? strdup(def) : NULL;
+}
+econf_getValueDef(String, char *, strdup_def)
 econf_getValueDef(Bool, bool, )
